@@ -105,6 +105,43 @@ process U() { state Z; init Z; }
 T1 = T(1, 2, a2, cs, 3);
 system T1, U;
 """),
+    # constant arrays with initialiser lists, a process without a parameter list, three-fold guard and invariant lists, transitions that
+    # share their source over several continuation entries, constant array parameters, declarations after the first `const`
+    ("""const A[2] {1, 2}, Z 0; int g; clock x, y, z; chan c; const B[2][2] {{1, 2}, {3, 4}};
+process V { const K 2, K2[2] {5, 6}; int h := 1; clock w;
+    state S0 { x <= 5, y <= 6, w <= K }, S1 { z <= A[1] }, S2, S3;
+    commit S3; urgent S2;
+    init S0;
+    trans S0 -> S1 { guard g < 2, x >= 1, y >= A[0]; assign g := K2[1], x := 0, h := B[1][0]; },
+          -> S2 { guard h == 1, g == 0, w > 1; sync c!; }, -> S3 { },
+          S1 -> S0 { sync c?; assign w := 0; }, -> S3 { guard z >= 1; };
+}
+process W(const q[2], r; int s[2], t; const u) { int o := 3;
+    state L0 { x <= q[0] + r + u }, L1;
+    init L0;
+    trans L0 -> L1 { guard s[0] == q[1], t < o; assign s[1] := u, t := r; };
+}
+int m[2]; int n;
+W1 := W(A, 1, m, n, 2);
+system V, W1;
+""", """const int A[2] = {1, 2}, Z = 0; int g; clock x, y, z; chan c; const int B[2][2] = {{1, 2}, {3, 4}};
+process V() { const int K = 2, K2[2] = {5, 6}; int h = 1; clock w;
+    state S0 { x <= 5 && y <= 6 && w <= K }, S1 { z <= A[1] }, S2, S3;
+    commit S3; urgent S2;
+    init S0;
+    trans S0 -> S1 { guard g < 2 && x >= 1 && y >= A[0]; assign g = K2[1], x = 0, h = B[1][0]; },
+          -> S2 { guard h == 1 && g == 0 && w > 1; sync c!; }, -> S3 { },
+          S1 -> S0 { sync c?; assign w = 0; }, -> S3 { guard z >= 1; };
+}
+process W(const int q[2], const int r, int &s[2], int &t, const int u) { int o = 3;
+    state L0 { x <= q[0] + r + u }, L1;
+    init L0;
+    trans L0 -> L1 { guard s[0] == q[1] && t < o; assign s[1] = u, t = r; };
+}
+int m[2]; int n;
+W1 = W(A, 1, m, n, 2);
+system V, W1;
+"""),
 ]
 
 
